@@ -398,6 +398,8 @@ func c03Multi(r *ck.Run, cfg gw.Opts, ci int) {
 		Caller  *gw.Creds
 		Grants  []string
 		NoNewIn string
+		// MustDeny: the reference evaluator denies the request outright (explicit Deny of its action)
+		MustDeny bool
 	}
 	both := func(b string) []string { return []string{b, b + "/*"} }
 	cases := []mcase{
@@ -477,6 +479,35 @@ func c03Multi(r *ck.Run, cfg gw.Opts, ci int) {
 					vid = Must(w.F.Put(gw.Root, w.Bucket, "obj1", []byte(canaryObj1+" second version")), "second version").Header.Get("x-amz-version-id")
 				}
 				return NewReq("PUT", gw.ObjPath(w.Bucket, "dir/stolen"), "", H("x-amz-copy-source", w.Bucket+"/obj1?versionId="+vid), nil)
+			}},
+		// reading a version is decided on s3:GetObjectVersion, whichever request reads it
+		{Name: "CopyObject from a version, s3:GetObjectVersion denied", NoCanaryIn: "bk-main/dir/stolen-version", MustDeny: true,
+			Stmts: func(w *World) []refStmt {
+				return []refStmt{{"Allow", []string{"usr3"}, []string{"s3:*"}, both(w.Bucket)}, {"Deny", []string{"usr3"}, []string{"s3:GetObjectVersion"}, []string{w.Bucket + "/*"}}}
+			},
+			Req: func(w *World) *gw.Req {
+				return NewReq("PUT", gw.ObjPath(w.Bucket, "dir/stolen-version"), "", H("x-amz-copy-source", w.Bucket+"/obj1?versionId="+c03Version(w)), nil)
+			}},
+		{Name: "UploadPartCopy from a version, s3:GetObjectVersion denied", MustDeny: true,
+			Stmts: func(w *World) []refStmt {
+				return []refStmt{{"Allow", []string{"usr3"}, []string{"s3:*"}, both(w.Bucket)}, {"Deny", []string{"usr3"}, []string{"s3:GetObjectVersion"}, []string{w.Bucket + "/*"}}}
+			},
+			Req: func(w *World) *gw.Req {
+				return NewReq("PUT", gw.ObjPath(w.Bucket, w.MpKey), gw.Q("uploadId", w.UploadID, "partNumber", "2"), H("x-amz-copy-source", w.Bucket+"/obj1?versionId="+c03Version(w)), nil)
+			}},
+		{Name: "HeadObject of a version, s3:GetObjectVersion denied", MustDeny: true,
+			Stmts: func(w *World) []refStmt {
+				return []refStmt{{"Allow", []string{"usr3"}, []string{"s3:*"}, both(w.Bucket)}, {"Deny", []string{"usr3"}, []string{"s3:GetObjectVersion"}, []string{w.Bucket + "/*"}}}
+			},
+			Req: func(w *World) *gw.Req {
+				return NewReq("HEAD", gw.ObjPath(w.Bucket, "obj1"), gw.Q("versionId", c03Version(w)), nil, nil)
+			}},
+		{Name: "GetObject of a version, s3:GetObjectVersion denied", MustDeny: true,
+			Stmts: func(w *World) []refStmt {
+				return []refStmt{{"Allow", []string{"usr3"}, []string{"s3:*"}, both(w.Bucket)}, {"Deny", []string{"usr3"}, []string{"s3:GetObjectVersion"}, []string{w.Bucket + "/*"}}}
+			},
+			Req: func(w *World) *gw.Req {
+				return NewReq("GET", gw.ObjPath(w.Bucket, "obj1"), gw.Q("versionId", c03Version(w)), nil, nil)
 			}},
 		{Name: "CopyObject destination-denied", ProtectedPaths: []string{"root:bk-main/obj1"},
 			Stmts: func(w *World) []refStmt {
@@ -565,6 +596,9 @@ func c03Multi(r *ck.Run, cfg gw.Opts, ci int) {
 		if resp.Err == nil && bytes.Contains(resp.Body, []byte(canaryOther)) {
 			an = append(an, "data-disclosed")
 		}
+		if mc.MustDeny && (resp.Err != nil || resp.Status < 400) {
+			an = append(an, "explicitly-denied-request-answered-"+fmt.Sprint(resp.Status))
+		}
 		r.Outcome(fmt.Sprintf("multi:%d", resp.Status))
 		if len(an) > 0 {
 			r.Violation(ck.JoinSig("multi", mc.Name, strings.Join(an, "+")), map[string]any{"config": fmt.Sprintf("%+v", cfg), "case": mc.Name, "policy": string(policyDoc(stmts)),
@@ -572,6 +606,17 @@ func c03Multi(r *ck.Run, cfg gw.Opts, ci int) {
 		}
 		w.Close()
 	}
+}
+
+// c03Version: the id of an older version of obj1 where the gateway keeps versions, else the null version.
+func c03Version(w *World) string {
+	if !w.F.G.Opts.Versioning {
+		return "null"
+	}
+	Must(w.F.Do(gw.Root, "PUT", "/"+w.Bucket, "versioning", nil, []byte("<VersioningConfiguration><Status>Enabled</Status></VersioningConfiguration>")), "enable versioning")
+	vid := Must(w.F.Put(gw.Root, w.Bucket, "obj1", []byte(canaryObj1+" a version")), "a version").Header.Get("x-amz-version-id")
+	Must(w.F.Put(gw.Root, w.Bucket, "obj1", []byte("newest version")), "newest version")
+	return vid
 }
 
 func readSnapFile(w *World, snapKey string) []byte {
